@@ -91,6 +91,70 @@ def run(tier):
                               "signing twice with one key leaves two witnesses" % f.name, where="%s:%s" % (f.file, t["s"][0]), rule="R-ORDER")
     res.floor("VKeyWitness pushes", n_push, 2)
 
+    # (d) the signature map and the witness vector are updated with the same key and signature
+    def leaves(sym):
+        out = set()
+        from pv.mir import sym_walk
+        for sub in sym_walk(sym):
+            if sub[0] == "param":
+                out.add(("param", sub[1]))
+            elif sub[0] == "local" and f.local_name(sub[1]):
+                out.add(("local", f.local_name(sub[1])))
+        return out
+    for f in fns:
+        maps = [i for i, l in enumerate(f.locals) if l["ty"].startswith("std::collections::hash::map::HashMap<") and l.get("name")]
+        stored = None
+        for bi, si, st in f.statements():
+            if st[0] == "a" and not isinstance(st[1], int):
+                from pv.panic import place_field_steps
+                steps = place_field_steps(f, st[1])
+                if steps and steps[-1][1] == "signatures":
+                    v = f.sym_rvalue(st[2], 8)
+                    if v[0] == "agg" and v[2] == "Some" and v[3] and v[3][0][0] == "local":
+                        stored = v[3][0][1]
+        key = "%s:signature-map-stored" % f.name
+        if stored is not None and stored in maps:
+            res.ok(key, "R-PROV", "self.signatures = Some(<updated map>)")
+        else:
+            res.violation(key, "%s does not store the updated signature map back into self.signatures" % f.name, where="%s:%s" % (f.file, f.line), rule="R-PROV")
+            continue
+        if f.name in ("sign", "add_signature"):
+            ins = [(bi, t) for bi, t in flow.calls_matching(f, r"^std::collections::hash::map::HashMap::insert$")
+                   if (flow.arg_chain(f, t, 0) or (None,))[0] == ("local", stored)]
+            others = [flow.callee_name(t) for bi, t in f.calls()
+                      if (flow.arg_chain(f, t, 0) or (None,))[0] == ("local", stored) and flow.callee_name(t).startswith("std::collections::hash::map::HashMap::")
+                      and not re.search(r"::(insert|len|get|contains_key|iter|is_empty)$", flow.callee_name(t))]
+            wit = flow.aggregates(f, r"VKeyWitness$")
+            key = "%s:map-and-witness-agree" % f.name
+            if len(ins) != 1 or others or len(wit) != 1:
+                res.violation(key, "%s must overwrite the map entry with exactly one HashMap::insert and build one witness (found %d insert, other map mutators %s, %d witnesses): "
+                              "otherwise the map and the embedded witness can hold different signatures for a key" % (f.name, len(ins), others, len(wit)),
+                              where="%s:%s" % (f.file, f.line), rule="R-PROV")
+            else:
+                t = ins[0][1]
+                k_l, v_l = leaves(f.sym_operand(t["args"][1], 40)), leaves(f.sym_operand(t["args"][2], 40))
+                rv = wit[0][2]
+                wk_l, ws_l = leaves(f.sym_operand(rv["fields"][0], 40)), leaves(f.sym_operand(rv["fields"][1], 40))
+                if k_l and k_l == wk_l and v_l and v_l == ws_l:
+                    res.ok(key, "R-PROV", "map key/value and witness vkey/signature derive from the same values %s / %s" % (sorted(k_l), sorted(v_l)))
+                else:
+                    res.violation(key, "%s inserts (%s -> %s) into the map but embeds a witness built from (%s, %s)" % (f.name, sorted(k_l), sorted(v_l), sorted(wk_l), sorted(ws_l)),
+                                  where="%s:%s" % (f.file, f.line), rule="R-PROV")
+        else:
+            rem = [(bi, t) for bi, t in flow.calls_matching(f, r"^std::collections::hash::map::HashMap::remove$")
+                   if (flow.arg_chain(f, t, 0) or (None,))[0] == ("local", stored)]
+            ret = flow.calls_matching(f, r"^alloc::vec::Vec::retain")
+            key = "%s:map-and-witness-agree" % f.name
+            if len(rem) == 1 and len(ret) == 1:
+                k_l = leaves(f.sym_operand(rem[0][1]["args"][1], 40))
+                r_l = leaves(f.sym_operand(ret[0][1]["args"][1], 40))
+                if k_l and k_l == r_l:
+                    res.ok(key, "R-PROV", "map removal and witness retain use the same key %s" % sorted(k_l))
+                else:
+                    res.violation(key, "remove_signature removes key %s from the map but filters witnesses by %s" % (sorted(k_l), sorted(r_l)), where="%s:%s" % (f.file, f.line), rule="R-PROV")
+            else:
+                res.violation(key, "remove_signature must remove the key from the map and retain the other witnesses (found %d remove, %d retain)" % (len(rem), len(ret)), where="%s:%s" % (f.file, f.line), rule="R-PROV")
+
     # (b) panic census
     table = panic.load_table("panic_C41.json")
     closure, sites, skipped = panic.census(P, fns)
